@@ -215,18 +215,24 @@ class Composite(Datum):
         merge_steps = {}
         merge_flow = {}
         merge_state = {}
+        # Copy the nested dictionaries (not the processes in them) so
+        # that this composite never shares them with what is merged in:
+        # later merges would otherwise modify the merged-in composite.
         if composite:
-            merge_processes.update(composite['processes'])
-            merge_topology.update(composite['topology'])
-            merge_steps.update(composite['steps'])
-            merge_flow.update(composite['flow'])
-            merge_state.update(composite.get('state', {}))
+            merge_processes.update(
+                deep_copy_internal(composite['processes']))
+            merge_topology.update(
+                deep_copy_internal(composite['topology']))
+            merge_steps.update(deep_copy_internal(composite['steps']))
+            merge_flow.update(deep_copy_internal(composite['flow']))
+            merge_state.update(
+                deep_copy_internal(composite.get('state', {})))
 
-        deep_merge(merge_processes, processes)
-        deep_merge(merge_topology, topology)
-        deep_merge(merge_steps, steps)
-        deep_merge(merge_flow, flow)
-        deep_merge(merge_state, state)
+        deep_merge(merge_processes, deep_copy_internal(processes))
+        deep_merge(merge_topology, deep_copy_internal(topology))
+        deep_merge(merge_steps, deep_copy_internal(steps))
+        deep_merge(merge_flow, deep_copy_internal(flow))
+        deep_merge(merge_state, deep_copy_internal(state))
         merge_processes = assoc_in({}, path, merge_processes)
         merge_topology = assoc_in({}, path, merge_topology)
         merge_steps = assoc_in({}, path, merge_steps)
